@@ -4,7 +4,7 @@ Tr == ndJsonDeserialize(IOEnv.TRACE_FILE)
 VARIABLES l, viol
 ToSet(s) == {s[i] : i \in DOMAIN s}
 Side(x) == [req |-> [line |-> x.req.line, body |-> x.req.body, framing |-> x.req.framing, hdrs |-> ToSet(x.req.hdrs)],
-            resp |-> [status |-> x.resp.status, interim |-> x.resp.interim, hdrs |-> ToSet(x.resp.hdrs), body |-> x.resp.body, framing |-> x.resp.framing],
+            resp |-> [status |-> x.resp.status, interim |-> x.resp.interim, got100 |-> x.resp.got100, hdrs |-> ToSet(x.resp.hdrs), body |-> x.resp.body, framing |-> x.resp.framing],
             streamed |-> x.streamed]
 Init == l = 1 /\ viol = <<>>
 Next == /\ l <= Len(Tr) /\ l' = l + 1
